@@ -5,6 +5,31 @@ VERIF = os.path.dirname(os.path.dirname(os.path.abspath(__file__)))
 ALL = [f"C{i:02d}" for i in range(1, 21)]
 
 CLAIMS = {
+ "C03": dict(
+    category="proof",
+    text="Lean theorems over the type-consistency judgement Wt.errs (Model/Wt.lean: every node's annotation agrees with its children, "
+         "with the binder of a variable, with the schemes of the program's functions / builtins / externs (references are instances, "
+         "matched by matchTy), with enum/struct definitions instantiated at the annotation's type arguments, with trait method "
+         "signatures, operators and branch types) and over the model of mono.rs: subst_preserves_wt (for every expression, substitution "
+         "and environment with closed definitions: a type-consistent expression stays type-consistent when a type substitution is applied "
+         "to all its annotations and to its environment), getTy_subst, scheme_instance_stable, subst_closed (a closed covering "
+         "substitution leaves no TParam), collapse_noTApp (phase 2 of mono returns application-free types for known generic heads, for "
+         "every type constructor the Rust descends into), collapse_preserves. The property itself is decided on the implementation's own "
+         "outputs: Wt.errs and the closedness predicates are evaluated on every REAL Core/Mono/Lift/ANF dump of every accepted corpus and "
+         "generated program, each with the signature environment dumped from the real genv/monoenv/liftenv (annotations the dumps drop are "
+         "cross-checked in the harness), and an ill-typed stream (one type error of 11 kinds injected at one forced position of a "
+         "well-typed generated program, plus 32 hand-written programs around wildcard array lengths, fields, arities, arguments) must be "
+         "rejected by the real compiler in the typer stage.",
+    design_ref="§5 C03, §C03 — as built",
+    note="Proved: the theorems above about Wt / the mono model. Validated only: that the real stage dumps satisfy the judgement (oracle on "
+         "every accepted program of the run, not a theorem about the typer), that ill-typed programs are rejected (sampled by injection). "
+         "Not done: matchc/anf/lift preservation theorems and soundness of Sem w.r.t. wt; the typer's inference (3 300 lines) is not "
+         "modelled. Trusted: Lean kernel, our reading of type consistency in Wt.errs, harness dumps of the environments, the generator's "
+         "own typing. Fixed: a value coerced to dyn Trait twice inside a call argument. Known findings: after lambda lifting closures are "
+         "structs while the positions they flow through keep function types (Lift/ANF not type-consistent); phantom type parameters "
+         "survive mono (shared with C07).",
+    technique="Lean 4 proof (structural induction over the nested IR and over types) + executable judgement run on the real stage "
+              "dumps + type-error injection against the real compiler"),
  "C05": dict(
     category="proof",
     text="Lean theorems over a model of resolve_expr/resolve_pat: the state-threading resolver refines the environment-passing "
